@@ -253,6 +253,7 @@ func runC16(r *core.Run) {
 		return
 	}
 	r.Set("instrumentation", os.Getenv("VERIF_INSTR"))
+	noteDegraded(r)
 	var cases []c16Case
 	for _, w := range []int{2, 3} {
 		for n := 0; n <= 10; n++ {
